@@ -3,6 +3,7 @@ from outsourcer import Code
 from . import utils
 from .base import Expression
 from .constants import BREAK, POS, RESULT, STATUS
+from .fail import Fail
 
 
 class List(Expression):
@@ -13,6 +14,14 @@ class List(Expression):
         self.min_len = min_len
         self.max_len = max_len
         _check_min_and_max_len(min_len, max_len)
+
+        # With bounds that are only known at run time the lower bound may exceed
+        # the upper bound. The list then fails, like this expression does.
+        literal = lambda x: x is None or str(x).isdigit()
+        if literal(min_len) and literal(max_len):
+            self._underflow = None
+        else:
+            self._underflow = Fail(f'Expected at least {min_len} elements')
 
     def __str__(self):
         arg = self.expr.operand_string()
@@ -89,6 +98,15 @@ class List(Expression):
         with out.IF(condition):
             out += RESULT << staging
             out += STATUS << True
+
+        if self._underflow is not None:
+            # The loop can also have stopped at an upper bound that turned out
+            # to be smaller than the lower bound: too few elements, but the last
+            # one matched.
+            with out.ELSE():
+                with out.IF(STATUS):
+                    out += RESULT << self._underflow.error_func()
+                    out += STATUS << False
 
 
 def _check_min_and_max_len(min_len, max_len):
